@@ -45,6 +45,77 @@ ParseDemands(e, r) ==
     <<"C18.noecho",   (IsFail(r) /\ r.req = {"ErrInputTooLong"}) => ~e.echo>>
   >>
 
+
+OptD(a) == IF Len(a) = 0 THEN NoDate ELSE Dt(a)
+
+\* C11 / C17: UnmarshalBinary into a receiver holding e.pre
+UnbinDemands(e, r) ==
+  LET after == Dt(e.after)  pre == Dt(e.pre) IN
+  <<
+    <<"C18.nopanic",   ~e.panic>>,
+    <<"C11.accept",    IsOk(r) => e.ok>>,
+    <<"C11.value",     (IsOk(r) /\ e.ok) => after = r.v>>,
+    <<"C11.reject",    IsFail(r) => ~e.ok>>,
+    <<"C11.sentinel",  (IsFail(r) /\ ~e.ok /\ ~e.panic) => SentinelsOK(r, e.is)>>,
+    <<"C11.calendar",  ValidDate(pre) => ValidDate(after)>>,
+    <<"C11.range",     (r.k = "failorvalid" /\ e.ok) => ValidDate(after)>>,
+    <<"C17.recv",      ~e.ok => after = pre>>,
+    <<"C17.inmod",     ~e.inmod>>
+  >>
+
+BinDemands(e) ==
+  LET a == Dt(e.a) IN
+  <<
+    <<"C11.noerr",  e.ok>>,
+    <<"C11.layout", e.out = BinEncode(a)>>,
+    <<"C11.len7",   Len(e.out) = 7>>,
+    <<"C11.back",   e.back = <<1, a.y, a.m, a.d>> >>
+  >>
+
+\* C07: order, differences
+CmpDemands(e) ==
+  LET a == Dt(e.a)  b == Dt(e.b)
+      inOrd == a.y >= -5000000 /\ a.y <= 5000000 /\ b.y >= -5000000 /\ b.y <= 5000000
+      diff == IF inOrd THEN Ord(a) - Ord(b) ELSE 0
+      inDur == inOrd /\ diff <= DurationRangeDays /\ diff >= -DurationRangeDays
+  IN <<
+    <<"C07.before",  e.before = Before(a, b)>>,
+    <<"C07.after",   e.after = After(a, b)>>,
+    <<"C07.equal",   e.equal = Equal(a, b)>>,
+    <<"C07.tricho",  (IF e.before THEN 1 ELSE 0) + (IF e.after THEN 1 ELSE 0) + (IF e.equal THEN 1 ELSE 0) = 1>>,
+    <<"C07.ordinal", inOrd => (e.before = (Ord(a) < Ord(b)))>>,
+    <<"C07.sub",     inDur => (e.subdays = diff /\ e.subrem)>>,
+    <<"C07.between", inDur => e.between = diff>>,
+    <<"C07.iszero",  e.azero = (a = ZeroDate)>>
+  >>
+
+AddDemands(e) ==
+  << <<"C07.add", Dt(e.r) = AddYMD(Dt(e.a), e.dy, e.dm, e.dd)>> >>
+
+AddDurDemands(e) ==
+  LET neg == e.secs < 0 \/ (e.secs = 0 /\ e.nanos < 0)
+      q == e.days + (IF neg THEN -1 ELSE 0) IN
+  << <<"C07.adddur", Dt(e.r) = AddDurDays(Dt(e.a), q)>> >>
+
+TimeDemands(e) ==
+  LET a == Dt(e.a) IN
+  << <<"C07.time",  e.t = <<a.y, a.m, a.d, 0, 0, 0, 0>> >>,
+     <<"C07.utc",   e.utc>>,
+     <<"C07.value", e.valeq>> >>
+
+FromTimeDemands(e) ==
+  LET want == <<e.t[1], e.t[2], e.t[3]>> IN
+  << <<"C07.fromtime", ~e.iszero => e.r = want>>,
+     <<"C07.scan",     ~e.iszero => e.scan = <<1>> \o want>> >>
+
+\* C15
+FBuildDemands(e, r) ==
+  << <<"C15.build_ok",   IsOk(r) => e.ok>>,
+     <<"C15.build_fail", IsFail(r) => (~e.ok /\ SentinelsOK(r, e.is))>> >>
+
+FContainsDemands(e, r) ==
+  << <<"C15.contains", e.r = r.v>> >>
+
 DateStep(e) ==
   CASE e.op = "date.set" ->
          DateSetMax(e.max) /\ Note(<<>>) /\ UNCHANGED ctx
@@ -56,7 +127,31 @@ DateStep(e) ==
          /\ DateParse(e.in, e.rule)
          /\ Note(ParseDemands(e, dRet'))
          /\ UNCHANGED ctx
+    [] e.op = "date.unbin" ->
+         \* the model receiver is set to the logged pre-state, then the action runs
+         /\ LET r == BinDecodeRef(e.in) IN
+              /\ dRet' = r
+              /\ dRecv' = Dt(e.after)               \* re-synchronise with the real receiver
+              /\ Note(UnbinDemands(e, r))
+         /\ UNCHANGED <<dMax, dFilt, dVars, ctx>>
+    [] e.op = "date.bin"      -> UNCHANGED dvars /\ Note(BinDemands(e)) /\ UNCHANGED ctx
+    [] e.op = "date.cmp"      -> UNCHANGED dvars /\ Note(CmpDemands(e)) /\ UNCHANGED ctx
+    [] e.op = "date.add"      -> UNCHANGED dvars /\ Note(AddDemands(e)) /\ UNCHANGED ctx
+    [] e.op = "date.adddur"   -> UNCHANGED dvars /\ Note(AddDurDemands(e)) /\ UNCHANGED ctx
+    [] e.op = "date.time"     -> UNCHANGED dvars /\ Note(TimeDemands(e)) /\ UNCHANGED ctx
+    [] e.op = "date.fromtime" -> UNCHANGED dvars /\ Note(FromTimeDemands(e)) /\ UNCHANGED ctx
+    [] e.op = "date.freset" ->
+         /\ dFilt' = <<>> /\ dVars' = [from |-> NoDate, to |-> NoDate] /\ dRet' = [k |-> "unit"]
+         /\ UNCHANGED <<dMax, dRecv, ctx>> /\ Note(<<>>)
+    [] e.op = "date.vars" ->
+         DateSetVars(OptD(e.from), OptD(e.to)) /\ Note(<<>>) /\ UNCHANGED ctx
+    [] e.op = "date.fbuild" ->
+         DateFilterBuild /\ Note(FBuildDemands(e, dRet')) /\ UNCHANGED ctx
+    [] e.op = "date.fcontains" ->
+         DateFilterContains(e.i, Dt(e.p)) /\ Note(FContainsDemands(e, dRet')) /\ UNCHANGED ctx
 
-IsDateOp(e) == e.op \in {"date.set", "date.rt", "date.parse"}
+IsDateOp(e) == e.op \in {"date.set", "date.rt", "date.parse", "date.unbin", "date.bin", "date.cmp",
+                          "date.add", "date.adddur", "date.time", "date.fromtime", "date.freset",
+                          "date.vars", "date.fbuild", "date.fcontains"}
 
 =============================================================================
